@@ -18,7 +18,7 @@ SHAPES = {
     "float": [ABSENT, 2.5, -1e-07],
     "str": [ABSENT, "s", "two words", "train|test", ""],
     "bool": [ABSENT, True, False],
-    "Optional[int]": [ABSENT, NONE, 7],
+    "Optional[int]": [ABSENT, NONE, 7, 0],
     "Optional[str]": [NONE, "x"],
     "Literal['x', 'y']": [ABSENT, "x"],
     "Literal['http1', 'adam_w', 'q-r']": [ABSENT, "adam_w"],
@@ -26,7 +26,7 @@ SHAPES = {
     "Union[int, str]": [ABSENT, 3],
     "dict": [ABSENT],
     "Optional[dict]": [NONE],
-    "Optional[float]": [NONE, 0.5],
+    "Optional[float]": [NONE, 0.5, 0.0],
     "Optional[bool]": [NONE, False],
 }
 DOCS = ["the {name}", "The {name} of it.", "number of things, with a comma", ""]
